@@ -4,7 +4,7 @@
     lemma is decided by computation and stops checking when the source
     changes. *)
 From Coq Require Import List NArith ZArith String Bool.
-From Verif Require Import Lib.Utf8 Jsonx.GenTypes Gen.JsonxConsts Gen.JsonxOwn Jsonx.Own Jsonx.Lex Jsonx.Tok Jsonx.Parse.
+From Verif Require Import Lib.Utf8 Jsonx.GenTypes Gen.JsonxConsts Gen.JsonxOwn Jsonx.Own Jsonx.FileModel Jsonx.Lex Jsonx.Tok Jsonx.Parse.
 Import ListNotations.
 Local Open Scope string_scope.
 
@@ -200,3 +200,18 @@ Lemma gen_result_stable (F : list N -> list N) h1 i h2 :
   forallb (fun e => negb (writes_to (ncalls h1) e)) h2 = true ->
   read (run F (policy_of gen_result_origins gen_pkg_buffers) (h1 ++ ECall i :: h2)) (ncalls h1) = Some (F i).
 Proof. rewrite gen_policy_fresh. apply fresh_result_stable. Qed.
+
+(** Files (gen/jsonx_own.go [gen_writefile_opens]): every place of jsonx/
+    that creates or opens a file for writing replaces the whole content -
+    os.WriteFile, os.Create, or os.OpenFile with O_TRUNC and without
+    O_APPEND - and WriteFile is one of them.  So the write policy of
+    Jsonx/FileModel.v is [Replace]. *)
+Lemma gen_writefile_replaces : writes_replace gen_writefile_opens = true.
+Proof. vm_compute. reflexivity. Qed.
+
+Lemma gen_wpolicy_replace : wpolicy_of gen_writefile_opens = Replace.
+Proof. unfold wpolicy_of. now rewrite gen_writefile_replaces. Qed.
+
+Lemma gen_file_last_write h f p :
+  read_file (run_writes (wpolicy_of gen_writefile_opens) h f) p = last_write p h (f p).
+Proof. rewrite gen_wpolicy_replace. apply replace_last_write. Qed.
